@@ -14,7 +14,7 @@ def run(ctx):
                            "created (negative controls: lock kept on failure, missing bucket dereferenced). Every history is replayed on real files damaged through the "
                            "bbolt API with watchdog + recover; after each call the lock is probed with bbolt.Open(Timeout) and the path with os.Stat.")
         ctx.assumptions += ["damage is applied through the bbolt API (structurally valid bbolt files), as the property states"]
-        steps = 4 if thorough else 3
+        steps = 5 if thorough else 4
         ctx.design("MC_Store", ctx.cfg_variant("MC_Store.cfg", dict(MaxSteps=steps + 1)), label="store")
         ctx.negative_control("MC_Store", ctx.cfg_variant("MC_Store.cfg", dict(KeepLockOnFailure="TRUE")), label="neg:KeepLockOnFailure")
         ctx.negative_control("MC_Store", ctx.cfg_variant("MC_Store.cfg", dict(NoBucketCheck="TRUE")), label="neg:NoBucketCheck")
@@ -37,6 +37,10 @@ def run(ctx):
         tr = os.path.join(ctx.work, "small.ndjson")
         ctx.record("record-lib", ["-scenario", "small", "-seed", seed, "-runs", "12" if thorough else "4"], tr)
         ctx.check_trace("Trace_Lib", "Trace_Lib.cfg", tr, "trace-small-hashed", must_have=("Exec",))
+        # files written in several transactions (> 1000 values), by every writer
+        tr = os.path.join(ctx.work, "boundary.ndjson")
+        ctx.record("record-lib", ["-scenario", "boundary", "-seed", seed, "-sizes", "1001,1002,1003,2500" if thorough else "1001,1002,1003"], tr)
+        ctx.check_trace("Trace_Lib", "Trace_Lib.cfg", tr, "trace-boundary-hashed", must_have=("Exec",))
 
 
 def replay(ctx, path):
